@@ -122,3 +122,154 @@ def orth_calls(tu, t):
     return s
 
 MODULES += [('JDOrth', [dict(lean='orth_calls', header=ORTH_H, custom=orth_calls, path='Orthogonalization.h : * ; SearchSpace::extend_basis')], '')]
+
+
+# ---------------------------------------------------------------------------------------------------------------------------------
+# Gen.JDMembers: OWNERSHIP and RESET footprint of the Davidson classes, regenerated from the clang AST on every run.
+#   members   one record per data member of JDSymEigsBase / DavidsonSymEigsSolver / SearchSpace / RitzPairs: class, name, declared type (source
+#             text), reference?, pointer / non-owning handle (Eigen::Ref / Map, reference_wrapper, smart pointer, std::function)?, top-level const?,
+#             `mutable`?
+#   aliases   the `using X = ...` declarations of those classes (class, name, aliased type): a member declared `Matrix` owns its storage only as
+#             long as `Matrix` is an Eigen::Matrix
+#   flow      the bodies of compute / compute_with_guess / the four accessors, SearchSpace::initialize_search_space,
+#             RitzPairs::compute_eigen_pairs and RitzPairs::check_convergence flattened into statements in source order:
+#             Stmt{fn, depth (nesting inside if / for), kind, target, text};  kind = "signature" (target = return type, text = parameter types),
+#             "assign" (target = left-hand side, text = right-hand side), "call" (target = callee, text = arguments), "decl" (target = variable,
+#             text = "type := initializer"), "if" / "else" / "for" / "while" (text = condition / header), "break", "return" (text = expression)
+# `C15.c15_members_owning` / `C15.c15_compute_resets_partial` (decide) read off these tables that the operator reference is the only member that
+# does not own its value, that the initial space and the scalars of a call are copied, which members `compute_with_guess` resets before the loop
+# (`m_search_space`, `niter_`) and that the remaining result members (`m_ritz_pairs`, `m_info`) are overwritten by the first trip round the loop.
+# A cache member, a member that keeps the caller's matrix by reference, a dropped `niter_ = 0` change a table and break a theorem.
+JD_CLASSES = [('JDSymEigsBase', 'JDSymEigsBase.h'), ('DavidsonSymEigsSolver', 'DavidsonSymEigsSolver.h'), ('SearchSpace', 'LinAlg/SearchSpace.h'), ('RitzPairs', 'LinAlg/RitzPairs.h')]
+JD_FLOW = [('JDSymEigsBase', 'compute'), ('JDSymEigsBase', 'compute_with_guess'), ('JDSymEigsBase', 'info'), ('JDSymEigsBase', 'num_iterations'),
+           ('JDSymEigsBase', 'eigenvalues'), ('JDSymEigsBase', 'eigenvectors'), ('SearchSpace', 'initialize_search_space'),
+           ('RitzPairs', 'compute_eigen_pairs'), ('RitzPairs', 'check_convergence')]
+_HANDLE = re.compile(r'\b(Ref|Map|reference_wrapper|shared_ptr|unique_ptr|weak_ptr|function)\s*<')
+_jsrc = {}
+def _jd_src(cls):
+    h = dict(JD_CLASSES)[cls]
+    if h not in _jsrc: _jsrc[h] = open(os.path.join(astdump.INC, 'Spectra', h)).read()
+    return _jsrc[h]
+
+def _lbool(b): return 'true' if b else 'false'
+def _llist(items): return '[]' if not items else '[\n  ' + ',\n  '.join(items) + ']'
+
+def _jd_record(tu, cls):
+    for o in tu.objs:
+        if o.get('kind') == 'ClassTemplateDecl' and o.get('name') == cls:
+            rec = [c for c in o.get('inner', []) if c.get('kind') == 'CXXRecordDecl' and c.get('completeDefinition')]
+            if len(rec) == 1: return rec[0]
+    raise XlateError('class template %s: definition not found' % cls)
+
+def _jd_classify(qual, text):
+    q = qual.strip(); t = text.strip()
+    is_ref = q.endswith('&') or t.endswith('&')
+    is_ptr = bool(re.search(r'\*(\s*const)?$', q)) or bool(re.search(r'\*(\s*const)?$', t)) or bool(_HANDLE.search(q)) or bool(_HANDLE.search(t))
+    core = q.rstrip('&').strip()
+    is_const = (not is_ref and not is_ptr) and (core.startswith('const ') or core.endswith(' const') or t.startswith('const '))
+    return is_ref, is_ptr, is_const
+
+def jd_members(tu, t):
+    rows = []; al = []
+    for cls, _h in JD_CLASSES:
+        rec = _jd_record(tu, cls); src = _jd_src(cls)
+        for f in rec.get('inner', []) or []:
+            if f.get('kind') == 'TypeAliasDecl':
+                al.append('(%s, %s, %s)' % (_lstr(cls), _lstr(f.get('name', '?')), _lstr(f.get('type', {}).get('qualType', '?'))))
+            if f.get('kind') != 'FieldDecl': continue
+            b = _off(f['range']['begin']); e = _off(f['loc'])
+            if b is None or e is None: raise XlateError('%s::%s: no source range' % (cls, f.get('name')))
+            txt = re.sub(r'^(mutable\s+)', '', re.sub(r'\s+', ' ', src[b[0]:e[0]]).strip())
+            r, p, c = _jd_classify(f.get('type', {}).get('qualType', ''), txt)
+            rows.append('{ cls := %s, name := %s, type := %s, isRef := %s, isPtr := %s, isConst := %s, isMutable := %s }' %
+                        (_lstr(cls), _lstr(f.get('name', '?')), _lstr(txt), _lbool(r), _lbool(p), _lbool(c), _lbool(bool(f.get('mutable')))))
+        if any(x.get('kind') == 'VarDecl' for x in rec.get('inner', []) or []): raise XlateError('%s: static data member' % cls)
+    s = '-- one data member: `type` is the declared type as written in the header; `isPtr` also covers non-owning handles (Eigen::Ref / Map, reference_wrapper, smart pointers, std::function)\n'
+    s += 'structure Member where\n  cls : String\n  name : String\n  type : String\n  isRef : Bool\n  isPtr : Bool\n  isConst : Bool\n  isMutable : Bool\n  deriving DecidableEq, Repr\n\n'
+    s += '/-- ALL data members of `JDSymEigsBase`, `DavidsonSymEigsSolver`, `SearchSpace`, `RitzPairs`, in declaration order -/\n'
+    s += 'def members : List Member := ' + _llist(rows) + '\n\n'
+    s += '/-- the type aliases declared in those classes: (class, alias, aliased type) -/\n'
+    s += 'def aliases : List (String × String × String) := ' + _llist(al) + '\n'
+    return s
+
+def _jd_root(n):
+    """the data member of *this at the root of an lvalue / callee expression ('' if it is rooted in a local or a parameter)"""
+    while isinstance(n, dict):
+        inner = [c for c in n.get('inner', []) or [] if isinstance(c, dict)]
+        if n.get('kind') == 'MemberExpr' and (not inner or _strip(inner[0]).get('kind') == 'CXXThisExpr'): return n.get('name', '')
+        if not inner: return ''
+        n = inner[1] if (n.get('kind') == 'CXXOperatorCallExpr' and len(inner) >= 2) else inner[0]
+    return ''
+
+_ASSIGN = ('=', '+=', '-=', '*=', '/=', '&=', '|=', '^=', '%=', '<<=', '>>=')
+def _jd_flow_of(cls, fname, fn, src):
+    rows = []
+    def T(n):
+        t = _text(src, n)
+        if t is None: raise XlateError('%s::%s: statement without a source range (macro?)' % (cls, fname))
+        return t
+    def stmt(n, d):
+        k = n.get('kind')
+        if k in ('FullComment', 'ParagraphComment', 'NullStmt'): return
+        inner = [c for c in n.get('inner', []) or [] if isinstance(c, dict)]
+        if k == 'CompoundStmt':
+            for c in inner: stmt(c, d)
+        elif k == 'ExprWithCleanups' and len(inner) == 1: stmt(inner[0], d)
+        elif k == 'IfStmt':
+            rows.append((d, 'if', '', T(inner[0]))); stmt(inner[1], d + 1)
+            if len(inner) > 2: rows.append((d, 'else', '', '')); stmt(inner[2], d + 1)
+        elif k == 'ForStmt':
+            parts = n.get('inner', []) or []
+            hd = '; '.join(T(p).rstrip(';').strip() for p in parts[:-1] if isinstance(p, dict) and p.get('kind'))
+            rows.append((d, 'for', '', hd)); stmt(parts[-1], d + 1)
+        elif k in ('WhileStmt', 'DoStmt'):
+            rows.append((d, 'while', '', T(inner[0] if k == 'WhileStmt' else inner[-1]))); stmt(inner[-1] if k == 'WhileStmt' else inner[0], d + 1)
+        elif k == 'BreakStmt': rows.append((d, 'break', '', ''))
+        elif k == 'ContinueStmt': rows.append((d, 'continue', '', ''))
+        elif k == 'ReturnStmt': rows.append((d, 'return', '', T(inner[0]) if inner else ''))
+        elif k == 'DeclStmt':
+            for v in inner:
+                if v.get('kind') != 'VarDecl': raise XlateError('%s::%s: unsupported declaration %s' % (cls, fname, v.get('kind')))
+                b = _off(v['range']['begin']); e = _off(v['loc'])
+                ty = re.sub(r'\s+', ' ', src[b[0]:e[0]]).strip() if b and e else v.get('type', {}).get('qualType', '?')
+                init = [c for c in v.get('inner', []) or [] if isinstance(c, dict) and c.get('kind') not in ('FullComment',)]
+                rows.append((d, 'decl', v.get('name', '?'), ty + ' := ' + (T(init[0]) if init else '')))
+        elif k in ('BinaryOperator', 'CompoundAssignOperator') and n.get('opcode') in _ASSIGN and len(inner) == 2:
+            rows.append((d, 'assign', T(inner[0]), ('' if n.get('opcode') == '=' else n.get('opcode') + ' ') + T(inner[1]), _jd_root(inner[0])))
+        elif k == 'CXXOperatorCallExpr' and len(inner) == 3 and T(n).count('=') >= 1 and _strip(inner[0]).get('kind') in ('DeclRefExpr', 'UnresolvedLookupExpr') and (_strip(inner[0]).get('referencedDecl', {}).get('name', _strip(inner[0]).get('name', '')) in ('operator=',) + tuple('operator' + o for o in _ASSIGN)):
+            rows.append((d, 'assign', T(inner[1]), T(inner[2]), _jd_root(inner[1])))
+        elif k in ('CallExpr', 'CXXMemberCallExpr') and inner:
+            rows.append((d, 'call', T(inner[0]), ', '.join(T(a) for a in inner[1:]), _jd_root(inner[0])))
+        elif k in ('UnaryOperator',): rows.append((d, 'expr', '', T(n)))
+        else: raise XlateError('%s::%s: unsupported statement kind %s' % (cls, fname, k))
+    body = [c for c in fn.get('inner', []) or [] if c.get('kind') == 'CompoundStmt']
+    if len(body) != 1: raise XlateError('%s::%s: no body' % (cls, fname))
+    b = _off(fn['range']['begin']); e = _off(fn['loc'])
+    ret = re.sub(r'\s+', ' ', src[b[0]:e[0]]).strip() if b and e else '?'
+    ret = re.sub(r'^template\s*<[^>]*>\s*', '', ret); ret = re.sub(r'\s*\b\w+(<\w+>)?::$', '', ret)
+    params = ', '.join(p.get('type', {}).get('qualType', '?') for p in fn.get('inner', []) or [] if p.get('kind') == 'ParmVarDecl')
+    qual = ' const' if ' const' in fn.get('type', {}).get('qualType', '').split(')')[-1] else ''
+    out = [(0, 'signature', ret, '(' + params + ')' + qual)]
+    stmt(body[0], 0)
+    return out + rows
+
+def jd_flow(tu, t):
+    rows = []
+    for cls, fname in JD_FLOW:
+        src = _jd_src(cls)
+        cands = astdump.find(tu.objs, cls + '::' + fname) + [o for o in tu.objs if o.get('kind') == 'CXXMethodDecl' and o.get('name') == fname and (o.get('loc', {}).get('includedFrom') or o.get('range'))]
+        defs = [x for x in cands if any(c.get('kind') == 'CompoundStmt' for c in x.get('inner', []) or [])]
+        # an out-of-class definition (RitzPairs::compute_eigen_pairs) is a top-level CXXMethodDecl: keep it only if its source text sits in the class's header
+        keep = []
+        for x in defs:
+            b = _off(x['range']['begin'])
+            if b is not None and re.search(r'\b' + re.escape(fname) + r'\s*\(', src[b[0]: b[0] + 400]) and x not in keep: keep.append(x)
+        if len(keep) != 1: raise XlateError('%s::%s: %d definitions' % (cls, fname, len(keep)))
+        for r in _jd_flow_of(cls, fname, keep[0], src): rows.append((cls + '::' + fname, r[0], r[1], r[2], r[3], r[4] if len(r) > 4 else ''))
+    s = '-- one statement of a flattened function body (see the header comment of xlate/tgt_c15.py)\n'
+    s += 'structure Stmt where\n  fn : String\n  depth : Nat\n  kind : String\n  target : String\n  text : String\n  root : String\n  deriving DecidableEq, Repr\n\n'
+    s += 'def flow : List Stmt := ' + _llist(['{ fn := %s, depth := %d, kind := %s, target := %s, text := %s, root := %s }' % (_lstr(r[0]), r[1], _lstr(r[2]), _lstr(r[3]), _lstr(r[4]), _lstr(r[5])) for r in rows]) + '\n'
+    return s
+
+MODULES += [('JDMembers', [dict(lean='members', header='JDSymEigsBase.h', custom=jd_members, path='JDSymEigsBase | DavidsonSymEigsSolver | SearchSpace | RitzPairs : data members, aliases'),
+                           dict(lean='flow', header='JDSymEigsBase.h', custom=jd_flow, path='compute / compute_with_guess / accessors / initialize_search_space / compute_eigen_pairs / check_convergence : statements')], '')]
